@@ -71,7 +71,7 @@ func (e *Eval) doCall(fr *Frame, cc *ssa.CallCommon, args []Val, fnval Val, st *
 		default:
 			switch {
 			case fnval.Clo != nil:
-				oc = e.inline(fr, fnval.Clo.Fn, args, fnval.Clo.Binds, st, cur)
+				oc = e.inlineP(fr, fnval.Clo.Fn, args, fnval.Clo.Binds, st, cur, panicking)
 			case fnval.Fn != nil:
 				oc = e.static(fr, cc, fnval.Fn, args, st, cur, site)
 			case fnval.ParamFn != "":
@@ -96,8 +96,15 @@ func (e *Eval) resultHavoc(site string, sig *types.Signature, cur string) []Val 
 }
 
 func (e *Eval) inline(fr *Frame, fn *ssa.Function, args []Val, binds []Val, st *State, cur string) Outcome {
+	return e.inlineP(fr, fn, args, binds, st, cur, false)
+}
+
+// inlineP: panicking is true when fn runs as a deferred call while its caller
+// unwinds (recover() then returns the panic value).
+func (e *Eval) inlineP(fr *Frame, fn *ssa.Function, args []Val, binds []Val, st *State, cur string, panicking bool) Outcome {
 	nf := e.newFrame(fn, fr)
 	nf.free = binds
+	nf.panicking = panicking
 	return e.evalFunc(nf, args, st, cur)
 }
 
@@ -390,6 +397,13 @@ func (e *Eval) havocFrame(k *Contract, env *Env, post, pre *State) {
 				continue
 			}
 			e.havocComp(post, e.elemComp(t))
+		case strings.HasPrefix(m, "implsof(") && strings.HasSuffix(m, ")"):
+			for _, t := range e.implsOf(env, m[8:len(m)-1]) {
+				stt := t.Underlying().(*types.Struct)
+				for i := 0; i < stt.NumFields(); i++ {
+					e.havocComp(post, e.declField(t, i))
+				}
+			}
 		case strings.HasPrefix(m, "maps(") && strings.HasSuffix(m, ")"):
 			// maps(map[K]V): every map of that type
 			ex, err := ParseSpecExpr(m[5 : len(m)-1])
@@ -791,7 +805,40 @@ func (e *Eval) declGhost(name string) {
 		e.declOwn()
 	case "$held":
 		e.declHeld()
+	case "$closed":
+		e.c.DeclComp("$closed", "(Array Int Bool)")
 	default:
+		if gv, ok := e.p.cs.GhostVars[name]; ok {
+			env := e.newEnv(e.p.pkgs[gv[1]], e.entry, e.entry)
+			if t := env.lookupType(gv[0]); t != nil {
+				e.c.DeclComp(name, env.sortOf(t))
+				return
+			}
+		}
 		e.c.DeclComp(name, e.c.compSortOr(name, "Int"))
 	}
+}
+
+// implsOf: named struct types of the package whose (pointer) type implements
+// the named interface.
+func (e *Eval) implsOf(env *Env, iface string) []types.Type {
+	it := env.lookupType(iface)
+	if it == nil || env.pkg == nil {
+		return nil
+	}
+	ii, ok := it.Underlying().(*types.Interface)
+	if !ok {
+		return nil
+	}
+	var out []types.Type
+	for _, name := range env.pkg.Pkg.Scope().Names() {
+		tn, ok := env.pkg.Pkg.Scope().Lookup(name).(*types.TypeName)
+		if !ok || !isStruct(tn.Type()) {
+			continue
+		}
+		if types.Implements(tn.Type(), ii) || types.Implements(types.NewPointer(tn.Type()), ii) {
+			out = append(out, tn.Type())
+		}
+	}
+	return out
 }
